@@ -1405,7 +1405,8 @@ func TestC09(t *testing.T) {
 		c09WitnessStarved(t, app, base, tr, 1, 3)
 	}
 	c09WitnessBorrowLeak(t, app, base, tr) // repaired by c15713f: nothing is flagged, nothing moves
-	c09WitnessTransitBand(t, app, base, tr)
+	c09WitnessTransitBand(t, app, base, tr, 2)
+	c09WitnessTransitBandMsgFirst(t, app, base, tr) // generation 1: the MESSAGE judges the band before the sweep gets there
 	c09WitnessGuardsV1(t, app, base, tr)
 	c09WitnessBorrowGuards(t, app, base, tr, 1)
 	c09WitnessBorrowGuards(t, app, base, tr, 2)
@@ -1980,16 +1981,20 @@ func c09WitnessBorrowLeak(t *testing.T, app *chain.App, base sdk.Context, tr *Tr
 // cross-pool borrows through BOTH transit assets, transit thresholds different; the collateral price is put in the middle
 // of the band between the two composite thresholds: exactly the borrows whose OWN composite threshold is the lower one
 // may be seized (sweep, then messages). A swap of first/second transit asset in the decision inverts this.
-func c09WitnessTransitBand(t *testing.T, app *chain.App, base sdk.Context, tr *Trace) {
+func c09WitnessTransitBand(t *testing.T, app *chain.App, base sdk.Context, tr *Trace, gen int) {
 	for _, sd := range []uint64{21, 22, 23} {
 		ctx, _ := base.CacheContext()
-		f := c09Build(t, app, ctx, 2, NewRng(sd), tr, true)
+		f := c09Build(t, app, ctx, gen, NewRng(sd), tr, true)
 		c09LendFixture(f)
 		f.setBatch(7)
-		for _, a := range f.apps {
-			f.setWl2(a, true)
+		if gen == 2 {
+			for _, a := range f.apps {
+				f.setWl2(a, true)
+			}
+		} else {
+			f.setLendAuc1(lendtypes.AppID)
 		}
-		tr.Line("liq.begin", "v2", "7")
+		tr.Line("liq.begin", fmt.Sprintf("v%d", gen), "7")
 		f.block()
 		var cross []c09Borrow
 		for _, r := range f.borrowRecords() {
@@ -2003,12 +2008,20 @@ func c09WitnessTransitBand(t *testing.T, app *chain.App, base sdk.Context, tr *T
 		f.aimBorrowAt(cross[0], 2, 0)
 		f.block()
 		for _, r := range cross {
-			f.liquidateMsg(r.id, 3, 1)
+			if gen == 2 {
+				f.liquidateMsg(r.id, 3, 1)
+			} else {
+				f.liquidateBorrowMsgV1(r.id)
+			}
 		}
 		f.aimBorrowAt(cross[len(cross)-1], 2, 0)
 		f.block()
 		for _, r := range cross {
-			f.liquidateMsg(r.id, 3, 1)
+			if gen == 2 {
+				f.liquidateMsg(r.id, 3, 1)
+			} else {
+				f.liquidateBorrowMsgV1(r.id)
+			}
 		}
 	}
 }
@@ -2186,6 +2199,39 @@ func c09WitnessAuctionTypesV2(t *testing.T, app *chain.App, base sdk.Context, tr
 		tr.Set(fmt.Sprintf("witness_auction_types_english=%v_locked_vaults", english), lid)
 		tr.Set(fmt.Sprintf("witness_auction_types_english=%v_auctions", english), aid)
 		tr.Set(fmt.Sprintf("witness_auction_types_english=%v_vaults_left", english), len(f.app.VaultKeeper.GetVaults(f.ctx)))
+	}
+}
+
+// Generation 1 message on cross-pool borrows inside the band between the two composite thresholds (non-e-mode populations, so that
+// D35 does not interfere): the price is put in the middle of the band and every cross-pool borrow is addressed by MsgLiquidateBorrow
+// BEFORE the sweep looks at it: exactly those whose OWN composite threshold is the lower one may be seized.
+func c09WitnessTransitBandMsgFirst(t *testing.T, app *chain.App, base sdk.Context, tr *Trace) {
+	for _, sd := range []uint64{71, 72, 73, 74} {
+		ctx, _ := base.CacheContext()
+		f := c09Build(t, app, ctx, 1, NewRng(sd), tr, true)
+		c09LendFixture(f)
+		f.setLendAuc1(lendtypes.AppID)
+		f.setBatch(7)
+		tr.Line("liq.begin", "v1", "7")
+		f.block()
+		var cross []c09Borrow
+		for _, r := range f.borrowRecords() {
+			if !r.bridged.IsZero() && !r.emode {
+				cross = append(cross, r)
+			}
+		}
+		if len(cross) == 0 {
+			continue
+		}
+		f.aimBorrowAt(cross[0], 2, 0)
+		for _, r := range cross {
+			f.liquidateBorrowMsgV1(r.id)
+		}
+		f.aimBorrowAt(cross[len(cross)-1], 2, 0)
+		for _, r := range cross {
+			f.liquidateBorrowMsgV1(r.id)
+		}
+		f.block()
 	}
 }
 
